@@ -170,6 +170,9 @@ fn c16_attribute_scan_single() {
     let mut t = Tape::EMPTY;
     let f = any_attrs::<1>(&mut t);
     push_body(&mut t, 0);
+    kani::cover!(f.inactive, "statement marked inactive");
+    kani::cover!(f.annotation == Some(1), "undecorated annotation");
+    kani::cover!(f.n_comment == 1 && f.annotation.is_none(), "comment that is not a usable annotation");
     run_and_check(t, 1, &f, 0);
 }
 
